@@ -39,6 +39,9 @@ enum Api {
     /// direct API, phase-1 entry point (raw transaction + witness scripts)
     Phase1,
     Handler(u32),
+    /// protocol handler at this version, with the raw-transaction sibling messages where a request has two
+    /// (ValidateCommitmentTx, SignRemoteCommitmentTx); the other requests as `Handler`
+    HandlerRaw(u32),
 }
 
 #[derive(Clone, Copy, Debug, PartialEq, Eq)]
@@ -458,7 +461,7 @@ impl Hist {
                         let (r, _) = self.world.request(|node| report::catch(|| node.with_channel_base(&id, |b| b.check_future_secret(n, &guess))));
                         Outcome::new(status_res(r).0)
                     }
-                    Api::Handler(v) => {
+                    Api::Handler(v) | Api::HandlerRaw(v) => {
                         let h = make_channel_handler(&self.world.node, v, self.chans[c].m.peer_id, self.chans[c].m.dbid);
                         let msg = Message::CheckFutureSecret(msgs::CheckFutureSecret { commitment_number: n, secret: DisclosedSecret(guess.secret_bytes()) });
                         let (r, _) = self.world.request(|_| report::catch(|| h.handle(msg)));
@@ -710,6 +713,45 @@ impl Hist {
                 });
                 Outcome::new(status_res(r).0)
             }
+            Api::HandlerRaw(v) => {
+                let (tx, wit) = match report::catch(|| m.holder_commitment_phase1(&self.secp, n_model, &cc)) {
+                    Ok(x) => x,
+                    Err(p) => return Outcome::new(Res::Err(format!("harness could not build the commitment: {}", p))),
+                };
+                let mut psbt = match lightning_signer::bitcoin::psbt::Psbt::from_unsigned_tx(tx.clone()) {
+                    Ok(p) => p,
+                    Err(e) => return Outcome::new(Res::Err(format!("harness could not build the psbt: {:?}", e))),
+                };
+                for (i, w) in wit.iter().enumerate() {
+                    if !w.is_empty() && i < psbt.outputs.len() {
+                        psbt.outputs[i].witness_script = Some(ScriptBuf::from(w.clone()));
+                    }
+                }
+                let h = make_channel_handler(&self.world.node, v, m.peer_id, m.dbid);
+                let hty = if m.setup.is_anchors() { EcdsaSighashType::SinglePlusAnyoneCanPay } else { EcdsaSighashType::All };
+                let msg = Message::ValidateCommitmentTx(msgs::ValidateCommitmentTx {
+                    tx: vls_protocol::serde_bolt::WithSize(tx),
+                    psbt: vls_protocol::serde_bolt::WithSize(vls_protocol::psbt::PsbtWrapper { inner: psbt }),
+                    htlcs: htlcs_wire(&cc),
+                    commitment_number: n,
+                    feerate: cc.feerate_per_kw,
+                    signature: to_bsig(&sig, EcdsaSighashType::All),
+                    htlc_signatures: Array(hsigs.iter().map(|s| to_bsig(s, hty)).collect()),
+                });
+                let (r, _) = self.world.request(|_| report::catch(|| h.handle(msg)));
+                let (res, reply) = handler_res(r);
+                let mut o = Outcome::new(res);
+                if let Some(b) = reply {
+                    if let Some(rep) = b.as_any().downcast_ref::<msgs::ValidateCommitmentTxReply>() {
+                        o.key_claims.push(("ValidateCommitmentTxReply(raw).next_per_commitment_point", n.wrapping_add(1), rep.next_per_commitment_point.0.to_vec()));
+                        if let Some(s) = &rep.old_commitment_secret {
+                            o.secrets.push(s.0);
+                            o.key_claims.push(("ValidateCommitmentTxReply(raw).old_commitment_secret", n.wrapping_sub(1), s.0.to_vec()));
+                        }
+                    }
+                }
+                o
+            }
             Api::Handler(v) => {
                 let h = make_channel_handler(&self.world.node, v, m.peer_id, m.dbid);
                 let hty = if m.setup.is_anchors() { EcdsaSighashType::SinglePlusAnyoneCanPay } else { EcdsaSighashType::All };
@@ -762,7 +804,7 @@ impl Hist {
                 }
                 o
             }
-            Api::Handler(v) => {
+            Api::Handler(v) | Api::HandlerRaw(v) => {
                 let h = make_channel_handler(&self.world.node, v, self.chans[c].m.peer_id, self.chans[c].m.dbid);
                 let msg = Message::RevokeCommitmentTx(msgs::RevokeCommitmentTx { commitment_number: n.wrapping_sub(1) });
                 let (r, _) = self.world.request(|_| report::catch(|| h.handle(msg)));
@@ -792,7 +834,7 @@ impl Hist {
                 }
                 o
             }
-            Api::Handler(v) => {
+            Api::Handler(v) | Api::HandlerRaw(v) => {
                 let h = make_channel_handler(&self.world.node, v, self.chans[c].m.peer_id, self.chans[c].m.dbid);
                 let msg = Message::GetPerCommitmentPoint(msgs::GetPerCommitmentPoint { commitment_number: n });
                 let (r, _) = self.world.request(|_| report::catch(|| h.handle(msg)));
@@ -822,7 +864,7 @@ impl Hist {
                 o.holder_sig = v;
                 o
             }
-            Api::Handler(v) => {
+            Api::Handler(v) | Api::HandlerRaw(v) => {
                 let h = make_channel_handler(&self.world.node, v, self.chans[c].m.peer_id, self.chans[c].m.dbid);
                 let msg = Message::SignLocalCommitmentTx2(msgs::SignLocalCommitmentTx2 { commitment_number: n });
                 let (r, _) = self.world.request(|_| report::catch(|| h.handle(msg)));
@@ -902,6 +944,35 @@ impl Hist {
                     }
                 }
             }
+            Api::HandlerRaw(v) => {
+                let built = report::catch(|| self.chans[c].m.counterparty_commitment_phase1(&self.secp, n_model, &point, &cc));
+                match built {
+                    Err(p) => Res::Err(format!("harness could not build the commitment: {}", p)),
+                    Ok((tx, wit)) => match lightning_signer::bitcoin::psbt::Psbt::from_unsigned_tx(tx.clone()) {
+                        Err(e) => Res::Err(format!("harness could not build the psbt: {:?}", e)),
+                        Ok(mut psbt) => {
+                            for (i, w) in wit.iter().enumerate() {
+                                if !w.is_empty() && i < psbt.outputs.len() {
+                                    psbt.outputs[i].witness_script = Some(ScriptBuf::from(w.clone()));
+                                }
+                            }
+                            let h = make_channel_handler(&self.world.node, v, self.chans[c].m.peer_id, self.chans[c].m.dbid);
+                            let msg = Message::SignRemoteCommitmentTx(msgs::SignRemoteCommitmentTx {
+                                tx: vls_protocol::serde_bolt::WithSize(tx),
+                                psbt: vls_protocol::serde_bolt::WithSize(vls_protocol::psbt::PsbtWrapper { inner: psbt }),
+                                remote_funding_key: PubKey(self.chans[c].m.cp_points.funding_pubkey.serialize()),
+                                remote_per_commitment_point: PubKey(point.serialize()),
+                                option_static_remotekey: true,
+                                commitment_number: n,
+                                htlcs: htlcs_wire(&cc),
+                                feerate: cc.feerate_per_kw,
+                            });
+                            let (r, _) = self.world.request(|_| report::catch(|| h.handle(msg)));
+                            handler_res(r).0
+                        }
+                    },
+                }
+            }
             Api::Handler(v) => {
                 let h = make_channel_handler(&self.world.node, v, self.chans[c].m.peer_id, self.chans[c].m.dbid);
                 let msg = Message::SignRemoteCommitmentTx2(msgs::SignRemoteCommitmentTx2 {
@@ -948,7 +1019,7 @@ impl Hist {
                 let (r, _) = self.world.request(|node| report::catch(|| node.with_channel(&id, |ch| ch.validate_counterparty_revocation(n, &sk))));
                 status_res(r).0
             }
-            Api::Handler(v) => {
+            Api::Handler(v) | Api::HandlerRaw(v) => {
                 let h = make_channel_handler(&self.world.node, v, self.chans[c].m.peer_id, self.chans[c].m.dbid);
                 let msg = Message::ValidateRevocation(msgs::ValidateRevocation { commitment_number: n, commitment_secret: DisclosedSecret(secret) });
                 let (r, _) = self.world.request(|_| report::catch(|| h.handle(msg)));
@@ -988,7 +1059,7 @@ impl Hist {
                 let (r, _) = self.world.request(|node| report::catch(|| node.with_channel(&id, |ch| ch.sign_mutual_close_tx_phase2(to_h, to_c, &hs, &cs, &path))));
                 status_res(r).0
             }
-            Api::Handler(v) => {
+            Api::Handler(v) | Api::HandlerRaw(v) => {
                 let h = make_channel_handler(&self.world.node, v, self.chans[c].m.peer_id, self.chans[c].m.dbid);
                 let msg = Message::SignMutualCloseTx2(msgs::SignMutualCloseTx2 {
                     to_local_value_sat: to_h,
@@ -1011,11 +1082,13 @@ impl Hist {
 // generation
 
 fn pick_api(rng: &mut Rng) -> Api {
-    match rng.below(7) {
+    match rng.below(9) {
         0 | 1 => Api::Direct,
         6 => Api::Phase1,
         2 => Api::Handler(4),
         3 => Api::Handler(5),
+        7 => Api::HandlerRaw(6),
+        8 => Api::HandlerRaw(4 + rng.below(2) as u32),
         _ => Api::Handler(6),
     }
 }
@@ -1660,7 +1733,7 @@ fn run_history(rng: &mut Rng, r: &mut Report, cli: &Cli, prop: Prop, shard: usiz
         if fired > 0 {
             fault_from = None;
             c11_suspended = true;
-            r.sig_suffix = format!(":after-storage-failure-in-{}{}", kind, if matches!(op, Op::ValidateHolder { api: Api::Handler(4), .. }) { ":old-protocol" } else { "" });
+            r.sig_suffix = format!(":after-storage-failure-in-{}{}", kind, if matches!(op, Op::ValidateHolder { api: Api::Handler(4) | Api::HandlerRaw(4), .. }) { ":old-protocol" } else { "" });
             r.count("storage_fault.episodes");
             r.count(&format!("storage_fault.{}.{}.{}", kind, op_api(&op), match &out.res { Res::Ok => "ok", Res::Err(_) => "err", Res::Panic(_) => "panic" }));
             r.distinct_hash(fnv_str(&format!("fault:{}:{}:{}", kind, op_api(&op), out.res.tag())));
@@ -1711,13 +1784,13 @@ fn run_history(rng: &mut Rng, r: &mut Report, cli: &Cli, prop: Prop, shard: usiz
         }
         match &op {
             Op::SignHolder { .. } | Op::SignHolderRecovery { .. } | Op::SignHolderRedundant { .. } => if out.res.is_ok() { both_sign_and_revoke_attempt.0 = true },
-            Op::Revoke { .. } | Op::ValidateHolder { api: Api::Handler(4), .. } => if both_sign_and_revoke_attempt.0 { both_sign_and_revoke_attempt.1 = true },
+            Op::Revoke { .. } | Op::ValidateHolder { api: Api::Handler(4) | Api::HandlerRaw(4), .. } => if both_sign_and_revoke_attempt.0 { both_sign_and_revoke_attempt.1 = true },
             _ => {}
         }
         if let Res::Err(e) = &out.res {
             r.set_add("refusals", &format!("{}:{}", kind, err_tag(e)));
             r.count("refused");
-            if let Api::Handler(v) = match &op { Op::Revoke { api, .. } | Op::GetPoint { api, .. } | Op::ValidateHolder { api, .. } => *api, _ => Api::Direct } {
+            if let Api::Handler(v) | Api::HandlerRaw(v) = match &op { Op::Revoke { api, .. } | Op::GetPoint { api, .. } | Op::ValidateHolder { api, .. } => *api, _ => Api::Direct } {
                 if matches!(op, Op::Revoke { .. } | Op::GetPoint { .. }) || matches!(op, Op::ValidateHolder { sigs: SigVariant::WrongKey | SigVariant::OtherContent | SigVariant::OtherNumber | SigVariant::OneHtlcSigWrong, .. }) {
                     r.count(&format!("disclosure_attempt_refused.v{}", v));
                 }
@@ -1808,7 +1881,7 @@ fn run_history(rng: &mut Rng, r: &mut Report, cli: &Cli, prop: Prop, shard: usiz
                 let mut tmp = Report::new(&cli.prop);
                 c11_check(&mut h, &mut tmp, cli, &op, &out);
                 if !tmp.violations.is_empty() {
-                    let old_protocol = matches!(op, Op::ValidateHolder { api: Api::Handler(4), .. });
+                    let old_protocol = matches!(op, Op::ValidateHolder { api: Api::Handler(4) | Api::HandlerRaw(4), .. });
                     let saved = std::mem::take(&mut r.sig_suffix);
                     let sig = format!("c11:acknowledged-retry-after-storage-failure-not-durable:{}{}", kind, if old_protocol { ":old-protocol" } else { "" });
                     let found: Vec<Value> = tmp.violations.iter().map(|v| json!({"signature": v.signature, "detail": v.detail})).collect();
